@@ -6,6 +6,7 @@
 From Coq Require Import ZArith List Bool.
 From Coq Require Import Floats.SpecFloat.
 From Rscel Require Import Base.Prims Base.F64 Base.Text Model.Value.
+From Rscel Require Export Base.FloatText.
 Import ListNotations.
 Open Scope Z_scope.
 
@@ -230,61 +231,6 @@ Fixpoint lex_string (fuel : nat) (q : Z) (raw fmt : bool) (s : scanner)
         end
       else lex_string f q raw fmt s1 (c :: work) segs
     end
-  end.
-
-(** Decimal floats ([str::parse::<f64>] on the collected text): the value is
-    the correctly rounded binary64 of mantissa * 10^exponent. *)
-Definition dec_to_f64 (m : Z) (e : Z) : f64 :=
-  match m with
-  | Z0 => S754_zero false
-  | Zneg _ => S754_nan
-  | Zpos pm =>
-      if 0 <=? e then
-        (* exact integer, then one rounding *)
-        binary_normalize prec64 emax64 (m * 10 ^ e) 0 false
-      else
-        match 10 ^ (- e) with
-        | Zpos pd =>
-            let '(mz, ez, lz) := SFdiv_core_binary prec64 emax64 (Zpos pm) 0 (Zpos pd) 0 in
-            binary_round_aux prec64 emax64 false mz ez lz
-        | _ => S754_nan
-        end
-  end.
-
-(** Text of a number as collected by [parse_number_or_token]: digits with at
-    most one '.', optional exponent.  [parse_float_text] mirrors Rust's grammar
-    for the shapes the tokenizer can produce. *)
-Fixpoint split_digits (s : chars) (acc : Z) (n : Z) : Z * Z * chars :=
-  match s with
-  | c :: r => if is_digit c then split_digits r (acc * 10 + (c - 48)) (n + 1) else (acc, n, s)
-  | [] => (acc, n, s)
-  end.
-
-Definition parse_float_text (s : chars) : option f64 :=
-  let '(ip, ni, r1) := split_digits s 0 0 in
-  let '(fp, nf, r2) := match r1 with
-                       | 46 :: r => split_digits r ip 0      (* continue accumulating the mantissa *)
-                       | _ => (ip, 0, r1)
-                       end in
-  if (ni + nf =? 0) then None else
-  match r2 with
-  | [] => Some (dec_to_f64 fp (- nf))
-  | c :: r3 =>
-      if (c =? 101) || (c =? 69) then
-        let '(neg, r4) := match r3 with
-                          | 43 :: r => (false, r)
-                          | 45 :: r => (true, r)
-                          | _ => (false, r3)
-                          end in
-        let '(ev, ne, r5) := split_digits r4 0 0 in
-        if (ne =? 0) then None else
-        match r5 with
-        | [] => (* beyond ni+nf+2000 the result is already 0 or infinity: clamping is exact *)
-                let ev' := Z.min ev (ni + nf + 2000) in
-                Some (dec_to_f64 fp ((if neg then - ev' else ev') - nf))
-        | _ => None
-        end
-      else None
   end.
 
 (** [parse_number_or_token]: collects the text, then parses it. *)
